@@ -211,7 +211,7 @@ def zx_grad(E):
 
 def harnesses(tier):
     q = tier == "quick"
-    T = 600 if q else 2400
+    T = 600 if q else 900
     layers = 1 if q else 2
     return [
         H("circuit_grad", circuit_grad, dict(layers=layers, quadratic=not q),
